@@ -113,6 +113,21 @@ class Analyzer(cfg.GraphVisitor):
     self._definition_factory = definition_factory
     super(Analyzer, self).__init__(graph)
     self.gen_map = {}
+    # The header node of a for loop binds the loop targets only when another
+    # iteration follows. Along the edges that leave the loop nothing is bound or
+    # killed, so the definitions that reached the header flow on unchanged
+    # (e.g. zero-iteration loops).
+    self._for_exit_nodes = {}
+    self._exit_out = {}
+    for stmt, successors in graph.stmt_next.items():
+      if (isinstance(stmt, ast.For) and not stmt.orelse and
+          stmt.iter in graph.index):
+        self._for_exit_nodes[graph.index[stmt.iter]] = frozenset(successors)
+
+  def _out_along_edge(self, pred, node):
+    if node in self._for_exit_nodes.get(pred, ()) and pred in self._exit_out:
+      return self._exit_out[pred]
+    return self.out[pred]
 
   def init_state(self, _):
     return _NodeState()
@@ -122,7 +137,7 @@ class Analyzer(cfg.GraphVisitor):
 
     defs_in = _NodeState()
     for n in node.prev:
-      defs_in |= self.out[n]
+      defs_in |= self._out_along_edge(n, node)
 
     if anno.hasanno(node.ast_node, anno.Static.SCOPE):
       node_scope = anno.getanno(node.ast_node, anno.Static.SCOPE)
@@ -160,7 +175,13 @@ class Analyzer(cfg.GraphVisitor):
     self.in_[node] = defs_in
     self.out[node] = defs_out
 
-    return prev_defs_out != defs_out
+    changed = prev_defs_out != defs_out
+    if node in self._for_exit_nodes:
+      prev_exit_out = self._exit_out.get(node)
+      self._exit_out[node] = _NodeState(defs_in)
+      if prev_exit_out is None or prev_exit_out != self._exit_out[node]:
+        changed = True
+    return changed
 
 
 class TreeAnnotator(transformer.Base):
